@@ -73,11 +73,11 @@ def _kinds(S):
     add("dtc-num-mirror", S.ReportNumberOfMirrorMemoryDTCByStatusMaskRequest(0xFF), ["5911ff010003"])
     add("dtc-num-obd", S.ReportNumberOfEmissionsRelatedOBDDTCByStatusMaskRequest(0xFF), ["5912ff010003"])
     add("dtc-obd", S.ReportEmissionsRelatedOBDDTCByStatusMaskRequest(0xFF), ["5913ff12345608"])
-    # the reportSupportedDTC-type requests (sub-functions 0A..0E, 15) cannot be built (`.pdu` raises, section 8 item 3):
-    # they go out as raw requests and come back as typed responses
+    # the reportSupportedDTC-type requests (sub-functions 0A..0E, 15) cannot be built on the pinned tree (`.pdu` raises,
+    # section 8 item 3): parse_dynamic then yields raw requests; the replies are typed either way
     for sf, lab in [(0x0A, "supported"), (0x0B, "first-failed"), (0x0C, "first-confirmed"), (0x0D, "recent-failed"),
                     (0x0E, "recent-confirmed"), (0x15, "permanent")]:
-        add("dtc-" + lab, S.RawRequest(bytes([0x19, sf])), [bytes([0x59, sf, 0xFF, 0x12, 0x34, 0x56, 0x08])])
+        add("dtc-" + lab, S.UDSRequest.parse_dynamic(bytes([0x19, sf])), [bytes([0x59, sf, 0xFF, 0x12, 0x34, 0x56, 0x08])])
     add("dtc-ext", S.ReportDTCExtDataRecordByDTCNumberRequest(0x123456, 1), ["59061234560801aa"])
     add("dtc-ext-all", S.ReportDTCExtDataRecordByDTCNumberRequest(0x123456, 0xFF), ["5906123456080102030405"])
     add("io", S.InputOutputControlByIdentifierRequest(0x1234, b"\x03\xaa", b"\xff"), ["6f123403aa"])
@@ -527,7 +527,7 @@ def judge(res, case):
     last = None
     for e, r in zip(exp, rows):
         o = by_i[e["i"]]
-        eps = 1e-6
+        eps = 5e-6
         if r["t_resp"] is not None and r["t_req"] > r["t_resp"] + eps:
             return ("row-time:send-after-receive:" + ident(e), f"send time {r['t_req']} after receive time {r['t_resp']}", e["i"])
         if not (o["t0"] - eps <= r["t_req"] <= (o["t_first_write"] or o["t1"]) + eps):
@@ -811,6 +811,19 @@ def _attrs_corr(ctx):
             ctx.disagree(f"c11:attr-shape:{cls}.{a}", f"json.dumps on {cls}.{a} (shape {sh}) {'works' if ok == '1' else 'fails'} but the model says {mo}",
                          {"class": cls, "attr": a, "shape": sh}, impl=ok, model=mo, spec_violated=False, site="insert_scan_result")
     ctx.exhaustive_parts.append(f"attribute shapes of {len(objs)} sample request/response objects vs json.dumps")
+    import inspect
+
+    def subs(c):
+        out = []
+        for x in c.__subclasses__():
+            out += [x] + subs(x)
+        return out
+
+    have = {type(o).__name__ for o in objs}
+    missing = sorted({c.__name__ for b in (S.UDSRequest, S.UDSResponse) for c in subs(b)
+                      if not inspect.isabstract(c) and not c.__name__.startswith("_")} - have
+                     - {"NegativeResponse", "RawNegativeResponse", "RawPositiveResponse"})
+    ctx.notes["request_response_classes_not_in_sample_table"] = missing
 
 
 def gen_cases(ctx):
@@ -831,7 +844,7 @@ def gen_cases(ctx):
                 for imp in (True, False):
                     cases.append(("implicit-x-tags", {"plans": [_plan(rng, K, ki, oc, implicit=imp, tags=tags)], "crash": None}))
     # 3. cancellation / exception at every await of an exchange that has several (pending loop, retries), after a prefix
-    for _ in range(ctx.pick(12, 80)):
+    for _ in range(ctx.pick(40, 160)):
         pre = [_plan(rng, K, rng.randrange(len(K)), rng.choice(OUTCOMES[:15]), implicit=rng.random() < 0.85, yields=rng.choice([0, 0, 1]))
                for _ in range(rng.randint(0, 3))]
         pre = [p for p in pre if p["outcome"] not in ("raise-read", "raise-write")]
@@ -843,7 +856,8 @@ def gen_cases(ctx):
             cases.append(("cancel-at-each-await", {"plans": pre + [last], "crash": {"how": "cancel-in", "after": len(pre), "at": ["r", j]}}))
     # 4. seeded histories of length 1..N with a crash point between exchanges / inside one / none
     N = ctx.pick(8, 24)
-    for _ in range(ctx.pick(260, 2500)):
+    n_hist = (3000 if ctx.widened else 900) if ctx.quick else 20000
+    for _ in range(n_hist):
         n = rng.randint(1, N)
         plans = []
         for _ in range(n):
@@ -864,7 +878,7 @@ def gen_cases(ctx):
             plans[k] = _plan(rng, K, plans[k]["ki"], rng.choice(["raise-read", "raise-write"]), implicit=plans[k]["implicit"])
         cases.append(("history", {"plans": plans, "crash": crash}))
     # 5. bursts: many exchanges without any yield, then disconnect at once (queue full at join)
-    for _ in range(ctx.pick(6, 40)):
+    for _ in range(ctx.pick(10, 60)):
         n = rng.randint(20, ctx.pick(60, 300))
         plans = [_plan(rng, K, rng.choice([10, 13, 0, 5]), rng.choice(["positive", "negative", "timeout"]), tags=None) for _ in range(n)]
         cases.append(("burst", {"plans": plans, "crash": rng.choice([None, {"how": "cancel", "after": n}, {"how": "raise", "after": n // 2}])}))
